@@ -31,4 +31,18 @@ PROPS = {
         ],
         "trusted_base": ["Model/Diagonal.v transcription of diagonal.rs / heatbath.rs; rand 0.8.8 gen_range / gen_bool decoding in Model/Prog.v"],
     },
+    "C12": {
+        "harness_cmd": "steps",
+        "oracle_props": ["C12"],
+        "property_files": ["C12.v"],
+        "expected_theorems": [
+            "C12_cutoff_never_shrinks", "C12_headroom", "C12_run", "C12_run_ge_initial", "C12_ising_timestep_rule",
+            "C12_ising_single_diagonal_rule", "C12_generic_timestep_rule", "C12_count_le_cutoff",
+        ],
+        "assumptions": [
+            "a 'run' is a sequence of timestep / single_* calls; an explicit user call of set_cutoff may lower the reported cutoff and is outside the property",
+            "the statistical clause (tiny and generous initial cutoffs reach the same averages) follows from headroom + C01 and is not separately sampled",
+        ],
+        "trusted_base": ["Model/Steps.v transcription of QmcIsingGraph::timestep / single_diagonal_step / single_cluster_step and Qmc::timestep"],
+    },
 }
